@@ -80,6 +80,8 @@ func (s *CatSc) Run(env *core.Env, st *core.Stats) (vs []core.Violation) {
 				st.Fault("helper-dies")
 			case "helper-kill":
 				st.Fault("helper-killed-by-close")
+			case "observe":
+				st.Probe("observer-saw-open-port")
 			}
 		}
 		st.Sample(map[string]any{"scenario": s, "events": len(ro.events), "yields": ro.yields, "fake_time_ns": ro.simTime})
